@@ -21,6 +21,12 @@ def az_jobs(rng, quick):
         jobs.append(gen.enc("aztec", c if isinstance(c, (bytes, list)) else list(c.encode("latin-1")), (pct, req), **kw))
     add(b"")
     add(b"", 0, -1)
+    for c in gen.magic_contents(rng):
+        add(c, rng.choice([0, 23, 33]))
+    # a binary-shift run at its maximal length (31 + 2047 bytes) with a two-byte punctuation pair exactly at the limit, more binary behind it
+    for pair in (b"\r\n", b". ", b", ", b": ") if not quick else (b"\r\n", b": "):
+        for off in (2076, 2077, 2078):
+            add(bytes(128 + (k * 3) % 100 for k in range(off)) + pair + bytes(128 + k for k in range(6)), 0, 0)
     add(b"", 100, 5)
     for b in range(0, 256, 3 if quick else 1):
         add(bytes([b]), rng.choice([0, 23, 33, 50]))
